@@ -213,3 +213,13 @@ HARNESSES["shm_zero_received"]["props"].append("C05")
 for n in ["ser_fail_visit1", "ser_fail_visit3"]:
     HARNESSES[n]["props"].append("C03")   # retained clones keep a channel connected for ever
 HARNESSES["send_plan_noatt_enobufs"]["tiers"] = {"C02": "thorough"}   # quick for C01 too: it runs in parallel with the no-fault one
+
+# quick-tier variants of the ENOBUFS plan harnesses (reduced ranges); the full-range ones are thorough only
+H("send_plan_noatt_enobufs_q", ["C13", "C01"], features="k_rec", timeout=1500, max_examined=1,
+  sym="reported SO_SNDBUF in [4096, 2^20], length in [0, 2^22], ENOBUFS pattern over the first 4 attempts", bounds="unwind 8; <= 6 transmission attempts per send")
+H("send_plan_att_enobufs_q", ["C13"], features="k_rec", timeout=1500, max_examined=1,
+  sym="reported SO_SNDBUF in [4096, 2^20], length in [0, 2^22], ENOBUFS pattern over the first 4 attempts; 3 attachments", bounds="unwind 8; <= 6 transmission attempts per send")
+for n in ["send_plan_noatt_enobufs", "send_plan_att_enobufs"]:
+    HARNESSES[n]["tier"] = "thorough"
+    HARNESSES[n]["tiers"] = {}
+    HARNESSES[n]["timeout"] = 2400
